@@ -30,8 +30,9 @@ ASSUMPTIONS = fc.STUBS + [
     "contact point unbounded (lmfit default); E>=0; k>0; weight_cp>0 or exactly 0/False",
     "that lmfit honours vary/bounds/expr is the stub's contract, not checked",
     "oracle for the model values: /verif/specs.py (as C02)",
+    "multi-pass failure task: contact-point-relative fit, 4 passes, optimiser values arbitrary",
 ]
-BUDGET_S = {"quick": 900, "thorough": 3000}
+BUDGET_S = {"quick": 900, "thorough": 3400}
 QUERY_TIMEOUT_MS = {"quick": 60000, "thorough": 240000}
 
 CONFIGS_QUICK = [
@@ -43,8 +44,7 @@ CONFIGS_QUICK = [
 CONFIGS_THOROUGH = CONFIGS_QUICK + [
     ("hertz_para", "4+2", 0, "on", "sym", ["E", "contact_point"]),
     ("hertz_pyr3s", "3+3", 0, "on", "sym", ["E"]),
-    ("sneddon_spher_approx", "3+3", 0, "on", "half", ["E"]),
-    ("power_layer_clifford_2009", "3+3", 0, "off", "half", ["E_S"]),
+    ("sneddon_spher_approx", "3+3", 0, "off", "one", ["E"]),
     ("hertz_cone", "5+3", 0, "on", "half", ["E", "contact_point", "baseline"]),
     ("hertz_cone", "6+0", 0, "off", "sym", ["E", "contact_point", "baseline"]),
 ]
@@ -65,7 +65,37 @@ def tasks(tier):
                    "args": {"model_key": m, "layout": lay, "segment": seg, "weighting": wt,
                             "kmode": k, "vary": vary},
                    "witnesses": ["success", "too_few_points"], "max_paths": 3000})
+    ts.append({"name": "multi-pass-failure:cone:4+2", "fn": "t_multipass_failure",
+               "args": {"model_key": "hertz_cone", "layout": "4+2"}, "max_paths": 6000,
+               "witnesses": ["later-pass-too-few-points"]})
     return ts
+
+
+def t_multipass_failure(model_key, layout):
+    """A contact-point-relative fit whose first (whole-segment) pass succeeds
+    and whose later pass selects too few points: the fit is unsuccessful and
+    must not show stale numbers."""
+    global LAST_WORLD
+    w, idnt, x, y, seg, P, init = fc.setup(layout, model_key, ["E"])
+    LAST_WORLD = w
+    a, b = real("ra"), real("rb")
+    check_assumptions()
+    try:
+        idnt.fit_model(model_key=model_key, params_initial=P, range_x=[a, b], range_type="relative cp",
+                       segment=0, weight_cp=0, gcf_k=1)
+    except KeyError:
+        return {"outcome": "first pass failed"}
+    core.count("transitions")
+    fp = idnt.fit_properties
+    if fp["success"] is True:
+        return {"outcome": "success"}
+    witness("later-pass-too-few-points")
+    prove("multipass-fail:fit-all-nan", all(is_nan(v) for v in idnt["fit"].elems))
+    prove("multipass-fail:residuals-all-nan", all(is_nan(v) for v in idnt["fit residuals"].elems))
+    prove("multipass-fail:no-stale-results",
+          not any(kk in fp for kk in ("params_fitted", "chi_sqr", "xmin", "xmax")),
+          info={"keys": sorted(str(k) for k in fp if k in ("params_fitted", "chi_sqr", "xmin", "xmax"))})
+    return {"outcome": "later pass failed", "optimiser_calls": len(symlmfit.CALLS)}
 
 
 def t_fit(model_key, layout, segment, weighting, kmode, vary):
@@ -172,10 +202,65 @@ def classify(task, ob):
     return ob["name"].split("[")[0]
 
 
+def _replay_multipass(task, ob, model):
+    g = lambda nm, d=0.0: float(model.get(nm, d))
+    seg = fc.LAYOUTS[task["args"]["layout"]]
+    n = len(seg)
+    opts = {}
+    for kk, v in model.items():
+        if kk.startswith("opt_"):
+            _, idx, rest = kk.split("_", 2)
+            opts.setdefault(int(idx), {})[rest.split("!")[0]] = float(v)
+    init = {kk[5:]: float(v) for kk, v in model.items() if kk.startswith("init_")}
+    return common.REPLAY_HEAD + f'''
+import lmfit, nanite, copy
+from nanite import model as nmodel
+import nanite.fit as nfit
+x = np.array({[g(f"x{i}") for i in range(n)]!r}); y = np.array({[g(f"y{i}") for i in range(n)]!r}); seg = np.array({seg!r}, dtype=np.uint8)
+ra, rb = {g("ra")!r}, {g("rb")!r}; opts = {opts!r}; init = {init!r}
+idnt = nanite.Indentation(data={{"tip position": x.copy(), "force": y.copy(), "segment": seg}},
+                          metadata={{"path": "/sym/c.jpk-force", "enum": 0, "point count": len(x), "imaging mode": "force-distance"}})
+P = nmodel.models_available[{task["args"]["model_key"]!r}].get_parameter_defaults()
+for nm, p in P.items():
+    p.vary = nm == "E"
+    if nm in init: p.value = init[nm]
+calls = []
+def fake_minimize(fcn, params, method="leastsq", args=(), **kw):
+    out = copy.deepcopy(params); o = opts.get(len(calls), {{}})
+    for nm, p in out.items():
+        if p.vary and nm in o: p.value = o[nm]
+    r = fcn(out, *args)
+    class R: pass
+    res = R(); res.params = out; res.chisqr = float(np.sum(np.asarray(r) ** 2)); res.success = True
+    calls.append(1); return res
+nfit.lmfit.minimize = fake_minimize
+try:
+    idnt.fit_model(model_key={task["args"]["model_key"]!r}, params_initial=P, range_x=[ra, rb], range_type="relative cp",
+                   segment=0, weight_cp=0, gcf_k=1)
+except KeyError as e:
+    print("first pass failed", e); sys.exit(0)
+fp = idnt.fit_properties
+bad = []
+if not fp["success"]:
+    if not np.all(np.isnan(idnt["fit"])): bad.append("fit column holds numbers after an unsuccessful fit")
+    if not np.all(np.isnan(idnt["fit residuals"])): bad.append("residual column holds numbers after an unsuccessful fit")
+    stale = [k for k in ("params_fitted", "chi_sqr", "xmin", "xmax") if k in fp]
+    if stale: bad.append("fit_properties keep %s of an earlier pass (E=%r) although success is False" % (stale, fp["params_fitted"]["E"].value))
+name = {ob["name"]!r}
+bad = [b_ for b_ in bad if ("stale" in name) == ("fit_properties keep" in b_)]
+print(name, bad)
+if bad:
+    print("REPRODUCED"); sys.exit(1)
+sys.exit(0)
+'''
+
+
 def replay(task, ob, model):
     """Replay on the real code: run the real fit with lmfit.minimize patched
     to return the model's optimiser values, then re-evaluate the consistency
     relations numerically."""
+    if task["fn"] == "t_multipass_failure":
+        return _replay_multipass(task, ob, model)
     a = task["args"]
     seg = fc.LAYOUTS[a["layout"]]
     n = len(seg)
